@@ -126,6 +126,23 @@ func (r *Report) Canary(rule, name string, flaggedBad, passedGood bool) {
 	r.Fail(rule, "canary:"+name, "checker/canary", d+"the rule implementation is broken")
 }
 
+// Suffix386 marks obligations established on the linux/386 build configuration.
+const Suffix386 = " [linux/386]"
+
+// Merge appends the obligations of another report of the same property (run on another build configuration).
+func (r *Report) Merge(o *Report, suffix string) {
+	for _, ob := range o.Obs {
+		ob.Key += suffix
+		r.Obs = append(r.Obs, ob)
+	}
+	r.Cells += o.Cells
+	for a := range o.Analysed {
+		r.Analysed[a] = true
+	}
+	r.canaryTotal += o.canaryTotal
+	r.canaryFired += o.canaryFired
+}
+
 type knownFinding struct {
 	Property string `json:"property"`
 	Rule     string `json:"rule"`
@@ -237,11 +254,11 @@ func (r *Report) Finish(repo string) int {
 		case StOK:
 			discharged++
 		case StFail, StUndecided:
-			if k := openKF[o.Rule+"|"+o.Key]; k != nil && o.Status == StFail {
+			if k := openKF[o.Rule+"|"+strings.TrimSuffix(o.Key, Suffix386)]; k != nil && o.Status == StFail {
 				o.Known = k.What
 				knownHits++
-				if !seenKF[o.Rule+"|"+o.Key] {
-					seenKF[o.Rule+"|"+o.Key] = true
+				if kk := o.Rule + "|" + strings.TrimSuffix(o.Key, Suffix386); !seenKF[kk] {
+					seenKF[kk] = true
 					lines = append(lines, fmt.Sprintf("KNOWN-FINDING: property=%s %s [%s | %s @ %s]", r.Prop, k.What, o.Rule, o.Key, o.Pos))
 				}
 				continue
